@@ -5,6 +5,7 @@ import (
 	"go/constant"
 	"go/token"
 	"go/types"
+	"os"
 	"strings"
 )
 
@@ -288,3 +289,5 @@ func ast_inspectAssign(info *types.Info, fi *FuncInfo, v *types.Var, report func
 		return true
 	})
 }
+
+func osArgs() []string { return os.Args }
